@@ -100,9 +100,29 @@ func specialDigests(args []string) int {
 	thorough := fs.Bool("thorough", false, "")
 	file := fs.String("file", "", "single trace file instead of generated runs")
 	deadline := fs.Int64("deadline", 0, "")
+	inproc := fs.Bool("inproc", false, "only compare the two in-process executions; print mismatches and a count")
 	fs.Parse(args)
 	out := bufio.NewWriter(os.Stdout)
 	defer out.Flush()
+	if *inproc {
+		n2, st := 0, 0
+		for k := *idx; k < *runs; k += *n {
+			if *deadline > 0 && time.Now().Unix() >= *deadline {
+				break
+			}
+			tr := traceFor(*prop, *seed, k, *thorough)
+			applyGCVariant(tr, *gcvar)
+			_, e1 := RunTrace(tr, false)
+			_, e2 := RunTrace(tr, false)
+			n2++
+			st += e1.St.Steps
+			if e1.ObsDigest() != e2.ObsDigest() {
+				fmt.Fprintf(out, "M %d\n", k)
+			}
+		}
+		fmt.Fprintf(out, "N %d %d\n", n2, st)
+		return 0
+	}
 	one := func(k int, tr *Trace) {
 		applyGCVariant(tr, *gcvar)
 		v, e := RunTrace(tr, false)
@@ -222,6 +242,40 @@ func specialC13(args []string) int {
 			}(ci, cfg, sh)
 		}
 	}
+	// in-process pass: many more traces, each executed twice in one process (map iteration order is randomised per
+	// range statement, so dependence on it shows up inside one process already)
+	inRuns := *runs * 12
+	inTraces, inSteps := 0, 0
+	var inBad []int
+	const IW = 10
+	for i := 0; i < IW; i++ {
+		wg.Add(1)
+		go func(i int) {
+			defer wg.Done()
+			a := []string{"special", "digests", "-inproc", "-prop", "C13", "-seed", fmt.Sprint(*seed), "-idx", fmt.Sprint(i), "-n", fmt.Sprint(IW),
+				"-runs", fmt.Sprint(inRuns), "-deadline", fmt.Sprint(deadline)}
+			if thorough {
+				a = append(a, "-thorough")
+			}
+			cmd := exec.Command(bin, a...)
+			cmd.Env = append(os.Environ(), "GOMAXPROCS=2")
+			out, err := cmd.Output()
+			mu.Lock()
+			defer mu.Unlock()
+			if err != nil {
+				procErr = append(procErr, fmt.Sprintf("inproc shard %d: %v", i, err))
+			}
+			for _, line := range strings.Split(string(out), "\n") {
+				var a, b int
+				if n, _ := fmt.Sscanf(line, "M %d", &a); n == 1 {
+					inBad = append(inBad, a)
+				} else if n, _ := fmt.Sscanf(line, "N %d %d", &a, &b); n == 2 {
+					inTraces += a
+					inSteps += b
+				}
+			}
+		}(i)
+	}
 	wg.Wait()
 	wall := time.Since(start).Seconds()
 	// compare
@@ -275,6 +329,9 @@ func specialC13(args []string) int {
 		for ci, cfg := range c13Configs {
 			l := res[key{ci, k}]
 			parts = append(parts, fmt.Sprintf("%s: %x/%x", cfg.Name, l.D, l.D2))
+		}
+		if _, ok := res[key{0, k}]; !ok {
+			parts = []string{"two executions in one process differ"}
 		}
 		small := shrinkNondet(tr)
 		small.Violation = &Violation{Class: "nondeterminism", Msg: "digests of the same trace differ between executions: " + strings.Join(parts, "; ")}
@@ -340,7 +397,7 @@ func specialC13(args []string) int {
 		os.MkdirAll(filepath.Dir(*evidence), 0o755)
 		os.WriteFile(*evidence, b, 0o644)
 	}
-	fmt.Printf("C13 %s: %d traces x %d configurations x 2, %d differing, %.1fs\n", *tier, complete, len(c13Configs), len(bad), wall)
+	fmt.Printf("C13 %s: %d traces x %d configurations x 2 and %d traces x 2 in one process, %d differing, %.1fs\n", *tier, complete, len(c13Configs), inTraces, len(bad), wall)
 	return exit
 }
 
